@@ -200,9 +200,27 @@ NV res_and_yuk(const THDM& m)
    return v;
 }
 
-void emit_pair(const char* evname, const std::string& id, const std::string& sig, const std::string& role, const ThdmPt& p)
+// the same point constructed from its gauge-basis parameters (lambda_1..7, tan(beta), m12^2 as reported by the mass-basis model)
+bool g_from_gauge = false;
+Built build_c09(const ThdmPt& p)
 {
    Built b = build(p);
+   if (!g_from_gauge || !b.exc.empty() || !p.mass_basis) return b;
+   ThdmPt g = p; g.mass_basis = false;
+   thdm::Gauge_basis& gb = g.gb;
+   gb.yukawa_type = p.mb.yukawa_type;
+   gb.lambda << b.model->get_lambda1(), b.model->get_lambda2(), b.model->get_lambda3(), b.model->get_lambda4(), b.model->get_lambda5(),
+                b.model->get_lambda6(), b.model->get_lambda7();
+   gb.tan_beta = p.mb.tan_beta; gb.m122 = b.model->get_m122();
+   gb.zeta_u = p.mb.zeta_u; gb.zeta_d = p.mb.zeta_d; gb.zeta_l = p.mb.zeta_l;
+   gb.Delta_u = p.mb.Delta_u; gb.Delta_d = p.mb.Delta_d; gb.Delta_l = p.mb.Delta_l;
+   gb.Pi_u = p.mb.Pi_u; gb.Pi_d = p.mb.Pi_d; gb.Pi_l = p.mb.Pi_l;
+   return build(g);
+}
+
+void emit_pair(const char* evname, const std::string& id, const std::string& sig, const std::string& role, const ThdmPt& p)
+{
+   Built b = build_c09(p);
    vt::Ev ev(evname);
    ev.str("case", id).str("sig", sig).str("kind", sig.substr(0, sig.find('/'))).str("role", role).str("exc", b.exc)
      .b("running", p.cfg.running_couplings);
@@ -220,7 +238,8 @@ void run_c09(const std::vector<std::vector<std::string>>& cases, vt::Rng& rng)
       p.mb.tan_beta = tb_of(c.at(3), rng);
       p.mb.m122 = p.mb.mA * p.mb.mA * p.mb.tan_beta / (1 + p.mb.tan_beta * p.mb.tan_beta) * rng.uni(0.5, 1.5);
       p.cfg.running_couplings = c.at(4) == "1";
-      const std::string sig = kind + "/type" + c.at(2) + "/" + c.at(3) + "/run" + c.at(4) + (c.size() > 5 ? "/" + c[5] : "");
+      g_from_gauge = rng.coin();          // both members of a pair from the mass basis, or both from the gauge basis
+      const std::string sig = kind + "/type" + c.at(2) + "/" + c.at(3) + "/run" + c.at(4) + (c.size() > 5 ? "/" + c[5] : "") + (g_from_gauge ? "/gb" : "");
       const double tb = p.mb.tan_beta;
       if (kind == "typed") {
          ThdmPt q = p;
@@ -244,7 +263,7 @@ void run_c09(const std::vector<std::vector<std::string>>& cases, vt::Rng& rng)
          //     rho_f = sqrt(2) M_f zeta_f / v + Delta_f  =  Pi_f / cos(beta) - sqrt(2) M_f tan(beta) / v
          ThdmPt g = a;
          g.mb.yukawa_type = thdm::Yukawa_type::general;
-         Built ba = build(a);
+         Built ba = build_c09(a);
          vt::Ev ev("Equiv");
          ev.str("case", id).str("sig", sig).str("kind", "general").str("role", "a").str("exc", ba.exc).b("running", false);
          if (ba.exc.empty()) ev.raw("res", vm::named_json(res_and_yuk(*ba.model)));
@@ -393,7 +412,8 @@ void run_c20(const std::vector<std::vector<std::string>>& cases, vt::Rng& rng)
          ev.emit();
       } else if (kind == "ew") {
          SM sm;
-         const double mz = rng.uni(80, 100), mw = mz * rng.uni(0.5, 0.999), a = rng.logu(1e-4, 0.1);
+         // all MW < MZ, including nearly degenerate ones (sin(theta_W) -> 0)
+         const double mz = rng.uni(80, 100), mw = mz * (rng.below(4) == 0 ? 1 - rng.logu(1e-9, 1e-3) : rng.uni(0.5, 0.999)), a = rng.logu(1e-4, 0.1);
          sm.set_mz(mz); sm.set_mw(mw); sm.set_alpha_em_mz(a); sm.set_alpha_em_0(a * rng.uni(0.9, 1.0)); sm.set_alpha_s_mz(rng.uni(0.05, 0.3));
          vt::Ev ev("EW");
          ev.str("case", id).str("sig", sig).num("mw", sm.get_mw()).num("mz", sm.get_mz()).num("alpha_mz", sm.get_alpha_em_mz())
